@@ -623,6 +623,10 @@ func propC02(c *Ctx) {
 		ruleStackIndexPaired(c, rsp)
 		rco := c.Rule("compound-op-agree", "the operator emitted for a compound assignment is the one the token package's spelling table pairs with it (`%=` with `%`): x op= y is x = x op y", 8)
 		ruleCompoundOpAgree(c, rco)
+		rso := c.Rule("symbol-operand", "every emitted instruction that addresses a local or a captured variable takes its operand from the Index of a Symbol", 8)
+		ruleSymbolOperand(c, rso)
+		rrc := c.Rule("operand-read-cover", "a dispatch arm that reads operands reads every operand byte the opcode table gives its instruction (ip+1 .. ip+W), counting the routines it calls", 30)
+		ruleOperandReadCover(c, rrc)
 		rof := c.Rule("operand-forwarded", "the operands of a call instruction (argument count, spread flag) reach every call routine: a call site passes the instruction's byte, forwards its own operand parameter, or has read the operand on every path to the call", 6)
 		ruleOperandForwarded(c, rof)
 		rbc := c.Rule("blank-never-const", "the blank identifier is never made a constant symbol: it can be declared again in the same scope", 2)
